@@ -175,6 +175,8 @@ def run(prog, chk):
             ok, why = False, 'called outside a base-first walk'
             if gfn.kind == 'lambda' and gfn.parent is not None:
                 ok, why = _C10._post_order_closure(prog, gfn.parent, gfn, call, 'validated')
+            elif gfn.kind in ('method', 'function') and any(n_.get('k') in ('call', 'mcall') and n_.get('callee') == gfn.name for n_ in SX.walk(gfn.body, into_lambdas=False)):
+                ok, why = _C10._post_order_closure(prog, None, gfn, call, 'validated', walk_fn=gfn)
             chk.ob('R16.A', gfn, call.get('ln', gfn.ln), ok,
                    'the abstract-class rule relies on %s, which %s derives from the base class\'s value: it must be computed for the base first (%s); otherwise '
                    'a class that inherits an unimplemented method through an undeclared-abstract middle class is instantiable' % (acc, V.short, why), key='abstract-base-first:' + V.short)
